@@ -2,6 +2,7 @@ package scen
 
 import (
 	"bytes"
+	"encoding/base64"
 	"fmt"
 	"net/http"
 	"time"
@@ -32,7 +33,7 @@ func init() {
 		Assumptions: []string{
 			"the interleaved framing itself ('$', channel, length) stays intact: a corrupted length cannot be resynchronised by any receiver and is outside 'malformed media input'",
 		},
-		RequiredProbes: []string{"c07.fault-injected", "c07.liveness-checked"},
+		RequiredProbes: []string{"c07.fault-injected", "c07.liveness-checked", "c07.malformed-input-comes-first"},
 	})
 }
 
@@ -71,6 +72,13 @@ func buildC07(tier string) sim.Scenario {
 		pusher := sw.rtspConnect("pusher", 1<<20)
 		base := "rtsp://10.9.0.1:554/live/p"
 		sdp := sdpH264AAC
+		// a publisher whose SDP names no parameter sets: they come in-band only, so a damaged one must not keep
+		// the stream from ever using the well-formed ones that follow
+		noSprop := !hostileSDP && tp.OneIn(4)
+		if noSprop {
+			sdp = spropRe.ReplaceAllString(sdp, "")
+			w.Probe("c07.parameter-sets-in-band-only")
+		}
 		if hostileSDP {
 			sdp = []string{
 				"v=0\r\nm=video 0 RTP/AVP 96\r\na=rtpmap:96 H264/90000\r\na=fmtp:96 sprop-parameter-sets=AAAA,;packetization-mode=1\r\na=control:streamid=0\r\n",
@@ -133,6 +141,9 @@ func buildC07(tier string) sim.Scenario {
 			defer close(viewDone)
 			sflv.ConsumeByHTTP(xlog.L(), "/live/p", "10.9.0.9:7", view)
 		})
+		for k := 0; k < 200 && stream.ConsumerCount() < 2; k++ { // the viewer is attached before the first judged frame is sent
+			w.Sleep(time.Millisecond)
+		}
 
 		// media
 		vseq, aseq := uint16(100), uint16(500)
@@ -154,7 +165,12 @@ func buildC07(tier string) sim.Scenario {
 			var aus []oracle.AU
 			sps := oracle.MakeNAL(oracle.H264, 7, id, 14)
 			copy(sps, []byte{0x67, 0x64, 0x00, 0x1f}) // keeps the profile bytes plausible
-			aus = append(aus, oracle.AU{NALs: [][]byte{sps, oracle.MakeNAL(oracle.H264, 8, id+1, 5), oracle.MakeNAL(oracle.H264, 5, id+2, 300+tp.Choose(2500))}, TS: ts})
+			pps := oracle.MakeNAL(oracle.H264, 8, id+1, 5)
+			if noSprop { // the stream's real parameter sets
+				sps, _ = base64.StdEncoding.DecodeString("Z2QAH6zZQFAFuhAAAAMAEAAAAwPI8YMZYA==")
+				pps, _ = base64.StdEncoding.DecodeString("aO+8sA==")
+			}
+			aus = append(aus, oracle.AU{NALs: [][]byte{sps, pps, oracle.MakeNAL(oracle.H264, 5, id+2, 300+tp.Choose(2500))}, TS: ts})
 			id += 3
 			for k := 1; k <= 3; k++ {
 				aus = append(aus, oracle.AU{NALs: [][]byte{oracle.MakeNAL(oracle.H264, 1, id, 40+tp.Choose(400))}, TS: ts + uint32(k)*3600})
@@ -187,8 +203,12 @@ func buildC07(tier string) sim.Scenario {
 				}
 			}
 		}
-		sendGOP(90000, 1)
-		w.Sleep(500 * time.Millisecond)
+		if tp.OneIn(3) {
+			w.Probe("c07.malformed-input-comes-first") // nothing well-formed has reached the converters yet
+		} else {
+			sendGOP(90000, 1)
+			w.Sleep(500 * time.Millisecond)
+		}
 
 		// faults
 		if !hostileSDP {
@@ -203,7 +223,9 @@ func buildC07(tier string) sim.Scenario {
 				})[0].Payload)
 				tmplFU := mkRTP(rtp.ChannelVideo, 96, vseq, 90000+7200, false, oracle.Pack(oracle.H264, []oracle.AU{{NALs: [][]byte{oracle.MakeNAL(oracle.H264, 5, 3, 200)}, TS: 1}}, 80, func(n int) int { return 0 })[0].Payload)
 				tmplA := mkRTP(rtp.ChannelAudio, 97, aseq, 44100, true, oracle.PackAAC([][]byte{blob(1, 30), blob(2, 40)}))
-				tmpl := []*rtp.Packet{tmplV, tmplFU, tmplA}[tp.Choose(3)]
+				spsFix, _ := base64.StdEncoding.DecodeString("Z2QAH6zZQFAFuhAAAAMAEAAAAwPI8YMZYA==")
+				tmplSPS := mkRTP(rtp.ChannelVideo, 96, vseq, 90000+7200, false, spsFix) // a parameter set as a packet of its own
+				tmpl := []*rtp.Packet{tmplV, tmplFU, tmplA, tmplSPS}[tp.Choose(4)]
 				name := ""
 				switch kind {
 				case 0, 1: // truncation at an offset
@@ -314,8 +336,16 @@ func buildC07(tier string) sim.Scenario {
 		}
 		for i := firstClean; i < len(sent); i++ {
 			for _, n := range sent[i].nals {
+				if t := n[0] & 0x1f; t == 7 || t == 8 {
+					continue // parameter sets may travel in the decoder configuration instead of a tag of their own
+				}
 				if !inFlv[string(n)] {
-					w.Fail("C07/flv-stopped", "a NAL unit (type %d, %d bytes) sent after the malformed input %v never reached the FLV viewer: conversion stopped", n[0]&0x1f, len(n), faultNames)
+					desc := fmt.Sprintf(" [FLV viewer got %d tags:", len(f.Tags))
+					for _, t := range f.Tags {
+						desc += fmt.Sprintf(" %d/%d/%dB", t.Type, t.PacketType, len(t.Data))
+					}
+					desc += fmt.Sprintf("; stream sps=%dB pps=%dB %dx%d]", len(stream.Video.Sps), len(stream.Video.Pps), stream.Video.Width, stream.Video.Height)
+					w.Fail("C07/flv-stopped", "a NAL unit (type %d, %d bytes) sent after the malformed input %v never reached the FLV viewer: conversion stopped%s", n[0]&0x1f, len(n), faultNames, desc)
 					return
 				}
 			}
